@@ -29,7 +29,7 @@ pub fn guarded_res<T, F: FnOnce() -> Result<T, String>>(f: F) -> Result<T, Strin
 fn res<T>(r: Result<T, Error>, d: &Decoder, f: impl FnOnce(T) -> Value) -> Value {
     match r {
         Ok(v) => ok(f(v), d.position()),
-        Err(e) => err(err_class(&e), d.position())
+        Err(e) => { let mut o = err(err_class(&e), d.position()); o["epos"] = json!(e.position().map(|p| p as i64).unwrap_or(-1)); o }
     }
 }
 
@@ -321,7 +321,7 @@ pub fn run_op(fam: &str, name: &str, input: &Value) -> Value {
             "serde" => crate::sfam::sdecode_named(name, &get_bytes(&input["bytes"])).unwrap_or(json!({"p":"unsupported"})),
             #[cfg(feature = "full")]
             "both" => crate::sbridge::both_named(name, &get_bytes(&input["bytes"])).unwrap_or(json!({"p":"unsupported"})),
-            #[cfg(feature = "std")]
+            #[cfg(all(feature = "std", feature = "half"))]
             "sink" => crate::sinks::raw(name, input),
             #[cfg(feature = "io")]
             "bread" => {
